@@ -319,5 +319,7 @@ func TestC06_QuicEncoderSelfCheck(t *testing.T) {
 	if got := fmt.Sprintf("%x", c06Varint(37, 2)); got != "4025" {
 		t.Fatalf("non-minimal varint: %s", got)
 	}
-	vkCase("C06.selfcheck", "rfc9001+rfc9369 client initial vectors", func() any { return "independent QUIC Initial encoder reproduces RFC 9001 A.2 and RFC 9369 A.2 bit for bit" }, "selfcheck:encoder_matches_rfc9001_and_rfc9369_vectors")
+	vkCase("C06.selfcheck", "rfc9001+rfc9369 client initial vectors", func() any {
+		return "independent QUIC Initial encoder reproduces RFC 9001 A.2 and RFC 9369 A.2 bit for bit"
+	}, "selfcheck:encoder_matches_rfc9001_and_rfc9369_vectors")
 }
